@@ -9,6 +9,7 @@ import PeroVerif.Drv.C02
 import PeroVerif.Drv.C04
 import PeroVerif.Drv.C05
 import PeroVerif.Drv.C07
+import PeroVerif.Drv.C08
 import PeroVerif.Drv.C09
 import PeroVerif.Drv.C12
 import PeroVerif.Drv.C13
@@ -27,6 +28,7 @@ def dispatch (p : String) : Option Handler :=
   | "C04" => some Drv.C04.handle
   | "C05" => some Drv.C05.handle
   | "C07" => some Drv.C07.handle
+  | "C08" => some Drv.C08.handle
   | "C09" => some Drv.C09.handle
   | "C12" => some Drv.C12.handle
   | "C13" => some Drv.C13.handle
